@@ -134,10 +134,12 @@ CLAIMED = {
              "resets, deadline handlers and queries, spawned at any time, interleaved arbitrarily): invariant proved for every reachable "
              "state, giving finished_sound (a query not seeing a latched channel reports finished only on a positive stamp >= its tick, made "
              "by the deadline handler or on an all-ready reply recorded in the history); error text = exactly the clear flags; updates "
-             "commute / are never lost; the tag file is replaced atomically for a single writer at a time (two-writer tearing shown as a "
-             "kernel-checked witness: clause partial). Tied to the real actor and listener: the real functions' message programs are read "
+             "commute / are never lost; the tag file is replaced atomically for a single writer at a time and, in an inode-level model, for "
+             "any number of writers that overlap as wholes (a file once published keeps its content; tied by the fact that nothing is "
+             "awaited between the temp file's creation and the rename); two writers inside their three file operations at the same "
+             "instant remain partial (tearing shown as a kernel-checked witness). Tied to the real actor and listener: the real functions' message programs are read "
              "through hook H3 and compared with the model programs, message-level interleavings are replayed through the public actor API, "
-             "real /provision queries with arbitrary ticks, tag file read after every step.",
+             "real /provision queries with arbitrary ticks, tag file read after every step, overlapping real writers watched by inode.",
         design="§7 C16, §8 F8", technique="Lean 4 proof (invariant over an interleaving transition system) + differential correspondence"),
     "C17": dict(
         text="Lean theorems about the model of the setup tool's commands over an abstract file system (all contents, all initial "
